@@ -729,7 +729,9 @@ func TestC14Clients(t *testing.T) {
 
 // ---------------- server endpoints ----------------
 
-func runServer(udp bool, peers []string) error {
+// first[i] says what the first bytes of peer i are: a whole frame, junk that is no frame marker, or the tail of a
+// frame (a peer that was already talking when the node started); a peer gets its channel whatever it says first.
+func runServer(udp bool, peers, first []string) error {
 	port := sim.FreePort()
 	var ep gomavlib.EndpointConf = gomavlib.EndpointTCPServer{Address: sim.Addr(port)}
 	network := "tcp4"
@@ -768,8 +770,18 @@ func runServer(udp bool, peers []string) error {
 			}
 			r := &res{label: p.LocalLabel(udp), kind: kind}
 			results[i] = r
-			r.silentAt = time.Now()                                     // taken before the only datagram: the node cannot have read it earlier
-			p.Send(tagged(byte(i+1), 0, "debug", true, nil, 0).Bytes()) //nolint:errcheck
+			r.silentAt = time.Now() // taken before the only datagram: the node cannot have read it earlier
+			hello := tagged(byte(i+1), 0, "debug", true, nil, 0).Bytes()
+			switch first[i] {
+			case "junk":
+				hello = []byte{0x01, 0x02, byte(i)}
+			case "frame-tail":
+				hello = hello[len(hello)/2:]
+				if hello[0] == 0xFD || hello[0] == 0xFE {
+					hello[0] = 0x11
+				}
+			}
+			p.Send(hello) //nolint:errcheck
 			switch kind {
 			case "leave":
 				time.Sleep(20 * time.Millisecond)
@@ -862,12 +874,13 @@ func runServer(udp bool, peers []string) error {
 }
 
 func TestC14Servers(t *testing.T) {
-	rec := evid.New(t, "C14", "TCP and UDP server endpoints with 2..5 generated peers that leave, fall silent (idle expiry after ~IdleTimeout with a timeout error) or keep sending every IdleTimeout/4 for 5 x IdleTimeout (must stay open; discarded as inconclusive when the sender itself stalled); every peer gets its own channel and accepting continues; non-trivial = a silent and a keepalive peer together; distinct by hash of the peer list")
-	rec.Require("tcp-server", "udp-server", "silent+keepalive")
+	rec := evid.New(t, "C14", "TCP and UDP server endpoints with 2..5 generated peers that leave, fall silent (idle expiry after ~IdleTimeout with a timeout error) or keep sending every IdleTimeout/4 for 5 x IdleTimeout (must stay open; discarded as inconclusive when the sender itself stalled); every peer gets its own channel whatever its first bytes are (a frame, junk, the tail of a frame) and accepting continues; non-trivial = a silent and a keepalive peer together; distinct by hash of the peer list")
+	rec.Require("tcp-server", "udp-server", "silent+keepalive", "udp-peer-whose-first-datagram-is-no-frame")
 	evid.Check(t, rec, evid.N(8, 30), func(t *rapid.T) {
 		type sub struct {
 			udp   bool
 			peers []string
+			first []string
 			err   error
 		}
 		var subs []*sub
@@ -875,6 +888,7 @@ func TestC14Servers(t *testing.T) {
 			s := &sub{udp: i%2 == 1}
 			s.peers = rapid.Permutation([]string{"leave", "silent", "keepalive"}).Draw(t, "peers")
 			s.peers = append(s.peers, rapid.SliceOfN(rapid.SampledFrom([]string{"leave", "silent", "keepalive"}), 0, 2).Draw(t, "more_peers")...)
+			s.first = rapid.SliceOfN(rapid.SampledFrom([]string{"frame", "frame", "junk", "frame-tail"}), len(s.peers), len(s.peers)).Draw(t, "first_bytes")
 			subs = append(subs, s)
 		}
 		var wg sync.WaitGroup
@@ -882,12 +896,12 @@ func TestC14Servers(t *testing.T) {
 			wg.Add(1)
 			go func(s *sub) {
 				defer wg.Done()
-				s.err = watchdog(scenarioLimit, func() error { return runServer(s.udp, s.peers) })
+				s.err = watchdog(scenarioLimit, func() error { return runServer(s.udp, s.peers, s.first) })
 			}(s)
 		}
 		wg.Wait()
 		for _, s := range subs {
-			desc := fmt.Sprintf("udp=%v peers=%v", s.udp, s.peers)
+			desc := fmt.Sprintf("udp=%v peers=%v firstBytes=%v", s.udp, s.peers, s.first)
 			if s.err != nil {
 				evid.ReplayNote("C14", "TestC14Servers", desc+"\n"+s.err.Error())
 				t.Fatalf("%s\n%v", desc, s.err)
@@ -903,6 +917,12 @@ func TestC14Servers(t *testing.T) {
 			}
 			if hs && hk {
 				cls = append(cls, "silent+keepalive")
+			}
+			for _, f := range s.first {
+				if s.udp && f != "frame" {
+					cls = append(cls, "udp-peer-whose-first-datagram-is-no-frame")
+					break
+				}
 			}
 			rec.Case(hs && hk, evid.HashS(desc), cls...)
 			if rec.WantSample(cls[0]) {
